@@ -302,6 +302,21 @@ func (its *PushPullHandler) pushOperations() errors.OrdaError {
 }
 
 func (its *PushPullHandler) processSubscribeOrCreate(code pushPullCase) errors.OrdaError {
+	hasEntryBit := its.gotOption.HasSubscribeBit() || its.gotOption.HasCreateBit()
+	switch {
+	case code == caseMatchKeyNotType:
+		// the key is held by a datatype of another type
+		if !its.gotOption.HasCreateBit() {
+			return errors.PushPullNoDatatypeToSubscribe.New(its.ctx.L(), its.Key)
+		}
+		return errors.PushPullDuplicateKey.New(its.ctx.L(), its.Key)
+	case code == caseUsedDUID && hasEntryBit:
+		// no datatype has the key, but the DUID belongs to the datatype of another key
+		return errors.PushPullDuplicateKey.New(its.ctx.L(), its.Key)
+	case code == caseMatchNothing && !hasEntryBit:
+		// a plain push-pull for a datatype the server does not know
+		return errors.PushPullAbortionOfClient.New(its.ctx.L(), "no such datatype: "+its.DUID)
+	}
 	if its.gotOption.HasSubscribeBit() && its.gotOption.HasCreateBit() {
 		switch code {
 		case caseMatchNothing:
@@ -327,9 +342,8 @@ func (its *PushPullHandler) processSubscribeOrCreate(code pushPullCase) errors.O
 		case caseUsedDUID: // duplicate DUID; can create with key but with another DUID
 		case caseMatchKeyNotType: // key is already used;
 		case caseAllMatchedSubscribed: // already created and subscribed; might duplicate creation; do nothing
-		case caseAllMatchedNotSubscribed: // error: already created but not subscribed;
+		case caseAllMatchedNotSubscribed, caseAllMatchedNotVisible: // error: already created but not subscribed;
 			return errors.PushPullDuplicateKey.New(its.ctx.L(), its.Key)
-		case caseAllMatchedNotVisible: //
 		default:
 		}
 	}
